@@ -261,7 +261,16 @@ func wc(tokens []string, scr, static, mget, optin bool) string {
 	return fmt.Sprintf("(WC %s %s %s %s %s)", obs.ListOf(tokens, obs.HS), obs.Bool(scr), obs.Bool(static), obs.Bool(mget), obs.Bool(optin))
 }
 
-func run(ci any) (res obs.Result) {
+// run wraps the Gallina term in parentheses (./check --replay applies check_case to it textually)
+func run(ci any) obs.Result {
+	res := runCase(ci)
+	if res.Coq != "" {
+		res.Coq = "(" + res.Coq + ")"
+	}
+	return res
+}
+
+func runCase(ci any) (res obs.Result) {
 	c := ci.(*Case)
 	res.Kind = c.Form
 	res.Sig = fmt.Sprint(c.Form, c.Cmd, c.PTTL, c.TTL, len(c.Reply))
